@@ -133,6 +133,7 @@ def run(ck):
             R.check_field_bits(ck, it, read_path(it, env, dec, path), data_bits_be("data", off, c.width), "RequestId.unpack", f"decoded {c.name} == bits {off}..{off + c.width - 1}")
             off += c.width
         D.check_xbuf(ck, it, "RequestId.unpack"); D.check_xdecl(ck, it, "RequestId.unpack", "data", C(4)); D.check_escape(ck, it, "RequestId.unpack")
+        D.check_short_refusals_justified(ck, it, "RequestId.unpack", "data", C(4), "the 4 octets of a request ID")
         D.check_independent(ck, it, env, dec, "data", "RequestId.unpack")
     it = new_interp(P); env = Env()
     from .c01 import sph_syms
